@@ -162,6 +162,15 @@ func (p *Path) feasible(c *sym.Term) bool {
 		}
 		p.ex.addFallback()
 	}
+	if r == solver.Unknown {
+		// last resort: the primary solver once more with twenty times its time limit
+		p.sync()
+		r, m = p.sol.CheckLong(c, 20)
+		if p.sol.Restarted {
+			p.sol.Restarted = false
+			p.pcSent = 0
+		}
+	}
 	switch r {
 	case solver.Sat:
 		if p.model == nil {
